@@ -101,6 +101,48 @@ MUTANTS = [
         "            vals[\"qualifiers\"],\n        )",
         "reverts fix fa51ec4: VariantInterval.from_dict ignores its parent",
     ),
+    (
+        "c17_minus_interval_order", "C17", G + "io/ncbi/tbl_writer.py",
+        "            s = [b[::-1] for b in s][::-1]\n",
+        "            s = [b[::-1] for b in s]\n",
+        "minus-strand blocks flipped but not reordered 5'->3'",
+    ),
+    (
+        "c17_codon_start_off_by_one", "C17", G + "io/ncbi/tbl_writer.py",
+        "        codon_start = next(transcript.cds._frame_iter()).value + 1\n",
+        "        codon_start = next(transcript.cds._frame_iter()).to_phase().value + 1\n",
+        "codon_start computed from phase instead of frame (wrong for frames 1 and 2 only)",
+    ),
+    (
+        "c17_reseed_removed", "C17", G + "io/ncbi/tbl_writer.py",
+        "    if random_seed is not None:\n        random.seed(random_seed)\n",
+        "    if random_seed is not None and random_seed > 1:\n        random.seed(random_seed)\n",
+        "seeds 0 and 1 silently ignored",
+    ),
+    (
+        "c17_swallow_oserror", "C17", G + "io/ncbi/tbl_writer.py",
+        "                print(str(obj), file=tbl_file_handle)\n",
+        "                try:\n                    print(str(obj), file=tbl_file_handle)\n                except OSError:\n                    warnings.warn(\"could not write feature\")\n",
+        "writer swallows OSError from the handle and carries on",
+    ),
+    (
+        "c17_end_complete_ignores_frame", "C17", G + "io/ncbi/tbl_writer.py",
+        "        end_is_incomplete = len(transcript.cds) % 3 != (codon_start - 1) or not transcript.cds.has_valid_stop\n",
+        "        end_is_incomplete = not transcript.cds.has_valid_stop\n",
+        "3' completeness no longer requires the CDS to end in frame",
+    ),
+    (
+        "c17_start_table_ignored", "C17", G + "io/ncbi/tbl_writer.py",
+        "        start_is_incomplete = not transcript.cds.has_start_codon_in_specific_translation_table(translation_table)\n",
+        "        start_is_incomplete = not transcript.cds.has_canonical_start_codon\n",
+        "5' completeness ignores the chosen translation table",
+    ),
+    (
+        "c17_set_order_again", "C17", G + "io/ncbi/tbl_writer.py",
+        "            product = sorted(transcript.qualifiers[\"product\"])[0]\n            # NCBI",
+        "            product = list(transcript.qualifiers[\"product\"])[0]\n            # NCBI",
+        "reverts fix c606951 at one site: product taken in set order",
+    ),
 ]
 
 # helper text appended for the mutant above (kept separate to keep the table readable)
